@@ -30,7 +30,10 @@ def job(d, checks):
             print(sid, c, 'rc=%d' % q.returncode, 'violations=%d' % len(viol), flush=True)
     shutil.rmtree(cp, ignore_errors=True)
     os.makedirs(OUT, exist_ok=True)
-    json.dump(res, open(os.path.join(OUT, sid + '.json'), 'w'), indent=1)
+    f = os.path.join(OUT, sid + '.json')
+    old = json.load(open(f)) if os.path.exists(f) else {}
+    old.update(res)
+    json.dump(old, open(f, 'w'), indent=1)
     return sid, res
 
 if __name__ == '__main__':
